@@ -20,13 +20,15 @@ EXTENDS Integers, Sequences, FiniteSets, TLC
 
 CONSTANTS NE, N, Timeout,   \* Timeout = 0: no timeout
           Mod,              \* key(e) = e % Mod
-          SyncCons, MaxTime
+          SyncCons, MaxTime,
+          Faults            \* TRUE: the consumer's awaitable may raise
 
-VARIABLES arrived, buf, timer, now, fl, batches, arrAt, rc, fired, up, emitDone, trig
+VARIABLES arrived, buf, timer, now, fl, batches, arrAt, rc, fired, up, emitDone, trig,
+          raised   \* elements whose update() got the exception of their own size flush
 \* buf[k]: buffered elements of key k;  timer[k]: deadline of the armed timer or -1
 \* fl: in-flight flushes, records [es, busy, by] (by = the element whose update() awaits it, 0 for a timer)
 \* batches: history <<es, time, cause>>;  trig[e]: update(e) triggered a size flush that is not finished
-vars == <<arrived, buf, timer, now, fl, batches, arrAt, rc, fired, up, emitDone, trig>>
+vars == <<arrived, buf, timer, now, fl, batches, arrAt, rc, fired, up, emitDone, trig, raised>>
 Elems == 1 .. NE
 Keys == 0 .. (Mod - 1)
 Key(e) == e % Mod
@@ -34,7 +36,7 @@ Key(e) == e % Mod
 Init ==
     /\ arrived = 0 /\ buf = [k \in Keys |-> <<>>] /\ timer = [k \in Keys |-> -1] /\ now = 0 /\ fl = <<>>
     /\ batches = <<>> /\ arrAt = [e \in Elems |-> 0] /\ rc = [e \in Elems |-> 0] /\ fired = <<>> /\ up = 0
-    /\ emitDone = [e \in Elems |-> FALSE] /\ trig = [e \in Elems |-> FALSE]
+    /\ emitDone = [e \in Elems |-> FALSE] /\ trig = [e \in Elems |-> FALSE] /\ raised = {}
 
 RECURSIVE ReleaseAll(_, _, _)
 ReleaseAll(s, r, f) ==
@@ -60,38 +62,58 @@ Arrive(e) ==
                    THEN [timer EXCEPT ![k] = now + Timeout]          \* first element of the group arms the timer
                    ELSE timer
        /\ trig' = [trig EXCEPT ![e] = (Len(buf[k]) + 1 = N)]
-    /\ UNCHANGED <<now, fl, batches, fired, emitDone>>
+    /\ UNCHANGED <<now, fl, batches, fired, emitDone, raised>>
 
 \* the flush that update() performs synchronously when the buffer is full
 SizeFlush(k) ==
     /\ Full(k) /\ up # 0 /\ Key(up) = k
-    /\ fl' = Append(fl, [es |-> buf[k], busy |-> ~SyncCons, by |-> up])
+    /\ fl' = Append(fl, [es |-> buf[k], busy |-> ~SyncCons, by |-> up, failed |-> FALSE])
     /\ batches' = Append(batches, <<buf[k], now, "size">>)
     /\ buf' = [buf EXCEPT ![k] = <<>>]
-    /\ UNCHANGED <<arrived, timer, now, arrAt, rc, fired, up, emitDone, trig>>
+    /\ UNCHANGED <<arrived, timer, now, arrAt, rc, fired, up, emitDone, trig, raised>>
 
 \* the armed timer of key k expires: flush what is there
 TimerFire(k) ==
     /\ timer[k] >= 0 /\ now >= timer[k] /\ up = 0
     /\ timer' = [timer EXCEPT ![k] = -1]
-    /\ fl' = Append(fl, [es |-> buf[k], busy |-> ~SyncCons, by |-> 0])
+    /\ fl' = Append(fl, [es |-> buf[k], busy |-> ~SyncCons, by |-> 0, failed |-> FALSE])
     /\ batches' = Append(batches, <<buf[k], now, "timer">>)
     /\ buf' = [buf EXCEPT ![k] = <<>>]
-    /\ UNCHANGED <<arrived, now, arrAt, rc, fired, up, emitDone, trig>>
+    /\ UNCHANGED <<arrived, now, arrAt, rc, fired, up, emitDone, trig, raised>>
 
 ConsumerDone(i) ==
     /\ i \in 1 .. Len(fl) /\ fl[i].busy /\ up = 0
     /\ fl' = [fl EXCEPT ![i].busy = FALSE]
-    /\ UNCHANGED <<arrived, buf, timer, now, batches, arrAt, rc, fired, up, emitDone, trig>>
+    /\ UNCHANGED <<arrived, buf, timer, now, batches, arrAt, rc, fired, up, emitDone, trig, raised>>
+
+\* the consumer's awaitable raises: `yield self._emit` raises inside _flush, which never reaches its release: the batch
+\* stays retained for ever (it stays in fl, marked failed).  The exception surfaces in the update() that awaited the
+\* flush (and from there at the emitter); the exception of a timer flush is nobody's.
+ConsumerFail(i) ==
+    /\ Faults /\ i \in 1 .. Len(fl) /\ fl[i].busy /\ up = 0
+    /\ fl' = [fl EXCEPT ![i].busy = FALSE, ![i].failed = TRUE]
+    /\ UNCHANGED <<arrived, buf, timer, now, batches, arrAt, rc, fired, up, emitDone, trig, raised>>
+
+FlushAbort(i) ==
+    /\ i \in 1 .. Len(fl) /\ fl[i].failed /\ (IF fl[i].by = 0 THEN FALSE ELSE trig[fl[i].by])
+    /\ trig' = [trig EXCEPT ![fl[i].by] = FALSE] /\ raised' = raised \cup {fl[i].by}
+    /\ UNCHANGED <<arrived, buf, timer, now, fl, batches, arrAt, rc, fired, up, emitDone>>
+
+EmitRaised(e) ==
+    /\ e \in raised /\ ~emitDone[e] /\ up # e
+    /\ emitDone' = [emitDone EXCEPT ![e] = TRUE]
+    /\ UNCHANGED <<arrived, buf, timer, now, fl, batches, arrAt, rc, fired, up, trig, raised>>
+
+Settled(i) == fl[i].failed /\ (IF fl[i].by = 0 THEN TRUE ELSE ~trig[fl[i].by])
 
 \* _flush resumes after the downstream emission: release the batch; the flush is over
 FlushRelease(i) ==
-    /\ i \in 1 .. Len(fl) /\ ~fl[i].busy
+    /\ i \in 1 .. Len(fl) /\ ~fl[i].busy /\ ~fl[i].failed
     /\ up = 0 \/ up = fl[i].by
     /\ LET rf == ReleaseAll(fl[i].es, rc, fired) IN rc' = rf[1] /\ fired' = rf[2]
     /\ trig' = IF fl[i].by # 0 THEN [trig EXCEPT ![fl[i].by] = FALSE] ELSE trig
     /\ fl' = SubSeq(fl, 1, i - 1) \o SubSeq(fl, i + 1, Len(fl))
-    /\ UNCHANGED <<arrived, buf, timer, now, batches, arrAt, up, emitDone>>
+    /\ UNCHANGED <<arrived, buf, timer, now, batches, arrAt, up, emitDone, raised>>
 
 \* update(e) has suspended (awaiting its flush) or returned: the upstream closes its bracket
 UpRelease(e) ==
@@ -100,23 +122,23 @@ UpRelease(e) ==
     /\ up' = 0
     /\ rc' = [rc EXCEPT ![e] = @ - 1]
     /\ fired' = IF rc[e] - 1 <= 0 THEN Append(fired, e) ELSE fired
-    /\ UNCHANGED <<arrived, buf, timer, now, fl, batches, arrAt, emitDone, trig>>
+    /\ UNCHANGED <<arrived, buf, timer, now, fl, batches, arrAt, emitDone, trig, raised>>
 
 \* the producer's awaitable: update(e)'s future resolves when its own size flush (if any) is over
 EmitDone(e) ==
-    /\ e <= arrived /\ up # e /\ ~trig[e] /\ ~emitDone[e]
+    /\ e <= arrived /\ up # e /\ ~trig[e] /\ ~emitDone[e] /\ e \notin raised
     /\ emitDone' = [emitDone EXCEPT ![e] = TRUE]
-    /\ UNCHANGED <<arrived, buf, timer, now, fl, batches, arrAt, rc, fired, up, trig>>
+    /\ UNCHANGED <<arrived, buf, timer, now, fl, batches, arrAt, rc, fired, up, trig, raised>>
 
 Advance ==
     /\ now < MaxTime /\ up = 0
     /\ \A k \in Keys : ~(timer[k] >= 0 /\ now >= timer[k])
-    /\ \A i \in 1 .. Len(fl) : fl[i].busy
+    /\ \A i \in 1 .. Len(fl) : fl[i].busy \/ Settled(i)
     /\ now' = now + 1
-    /\ UNCHANGED <<arrived, buf, timer, fl, batches, arrAt, rc, fired, up, emitDone, trig>>
+    /\ UNCHANGED <<arrived, buf, timer, fl, batches, arrAt, rc, fired, up, emitDone, trig, raised>>
 
-Internal == (\E k \in Keys : SizeFlush(k) \/ TimerFire(k)) \/ (\E i \in 1 .. NE : FlushRelease(i)) \/ (\E e \in Elems : UpRelease(e))
-Next == (\E e \in Elems : Arrive(e) \/ EmitDone(e)) \/ Internal \/ (\E i \in 1 .. NE : ConsumerDone(i)) \/ Advance
+Internal == (\E k \in Keys : SizeFlush(k) \/ TimerFire(k)) \/ (\E i \in 1 .. NE : FlushRelease(i) \/ FlushAbort(i)) \/ (\E e \in Elems : UpRelease(e))
+Next == (\E e \in Elems : Arrive(e) \/ EmitDone(e) \/ EmitRaised(e)) \/ Internal \/ (\E i \in 1 .. NE : ConsumerDone(i) \/ ConsumerFail(i)) \/ Advance
 Spec == Init /\ [][Next]_vars
 
 ----------------------------------------------------------------------------
